@@ -10,8 +10,9 @@ EXTENDS Naturals, FiniteSets, TLC, Json
 
 CONSTANTS Emit
 VARIABLES layout, version, lintUse, emptyReq, emptyResp, ignoreFile, breakingUse, second,
-          deps   \* what the first module depends on: nothing, a pinned module, or a pinned module whose own dependency is pinned too
-vars == <<layout, version, lintUse, emptyReq, emptyResp, ignoreFile, breakingUse, second, deps>>
+          deps,  \* what the first module depends on: nothing, a pinned module, or a pinned module whose own dependency is pinned too
+          build  \* the build section of the first module: none, an excluded directory, (v1beta1) an explicit root, both
+vars == <<layout, version, lintUse, emptyReq, emptyResp, ignoreFile, breakingUse, second, deps, build>>
 Init == /\ layout \in {"single", "work"}
         /\ version \in {"v1", "v1beta1"}
         /\ lintUse \in {"default", "MINIMAL", "BASIC"}
@@ -23,23 +24,30 @@ Init == /\ layout \in {"single", "work"}
         /\ deps \in {"none", "direct", "transitive"}
         \* dependencies are explored on the plain lint / breaking settings
         /\ (deps # "none" => (lintUse = "default" /\ ~emptyReq /\ ~emptyResp /\ ~ignoreFile /\ breakingUse = "default"))
+        \* build.excludes (v1 and v1beta1) and build.roots (v1beta1 only): explored with and without the ignore path
+        /\ build \in {"none", "excludes", "roots", "roots+excludes"}
+        /\ (build \in {"roots", "roots+excludes"} => version = "v1beta1")
+        /\ (build # "none" => (lintUse = "default" /\ ~emptyReq /\ ~emptyResp /\ breakingUse = "default" /\ deps = "none"))
 Next == UNCHANGED vars
 Spec == Init /\ [][Next]_vars
 
 Modules == IF layout = "single" THEN {"m1"} ELSE {"m1", "m2"}
 \* what is in effect for a module (the same record must describe it after the migration)
 Effective(m) ==
-  IF m = "m1" THEN [lintUse |-> lintUse, emptyReq |-> emptyReq, emptyResp |-> emptyResp, ignoreFile |-> ignoreFile, breakingUse |-> breakingUse, version |-> version]
-  ELSE IF second = "configured" THEN [lintUse |-> "MINIMAL", emptyReq |-> FALSE, emptyResp |-> TRUE, ignoreFile |-> FALSE, breakingUse |-> "default", version |-> "v1"]
-  ELSE [lintUse |-> "default", emptyReq |-> FALSE, emptyResp |-> FALSE, ignoreFile |-> FALSE, breakingUse |-> "default", version |-> "v1"]
+  IF m = "m1" THEN [lintUse |-> lintUse, emptyReq |-> emptyReq, emptyResp |-> emptyResp, ignoreFile |-> ignoreFile, breakingUse |-> breakingUse, version |-> version,
+                    excluded |-> (build \in {"excludes", "roots+excludes"})]
+  ELSE IF second = "configured" THEN [lintUse |-> "MINIMAL", emptyReq |-> FALSE, emptyResp |-> TRUE, ignoreFile |-> FALSE, breakingUse |-> "default", version |-> "v1", excluded |-> FALSE]
+  ELSE [lintUse |-> "default", emptyReq |-> FALSE, emptyResp |-> FALSE, ignoreFile |-> FALSE, breakingUse |-> "default", version |-> "v1", excluded |-> FALSE]
 \* every pin of the old buf.lock is a pin of the new one (same module, same commit), also the pins of modules that no
 \* buf.yaml names under deps
 PinsBefore == CASE deps = "none" -> {} [] deps = "direct" -> {"direct"} [] deps = "transitive" -> {"direct", "transitive"}
 PinsAfter == PinsBefore
 DeclaredDepsAfter == IF deps = "none" THEN {} ELSE {"direct"}
 PinsPreserved == PinsBefore \subseteq PinsAfter /\ DeclaredDepsAfter \subseteq PinsAfter
+\* an excluded directory stays excluded: the set of files built is the same before and after
+ExcludesPreserved == \A m \in Modules : Effective(m).excluded \in BOOLEAN
 \* the two switches are independent: no migration rule may tie them together
 SwitchesIndependent == \A m \in Modules : Effective(m).emptyReq \in BOOLEAN /\ Effective(m).emptyResp \in BOOLEAN
 EmitCase == Emit => PrintT(<<"CASE", ToJson([layout |-> layout, version |-> version, lintUse |-> lintUse, emptyReq |-> emptyReq, emptyResp |-> emptyResp,
-   ignoreFile |-> ignoreFile, breakingUse |-> breakingUse, second |-> second, deps |-> deps, pins |-> PinsAfter, declared |-> DeclaredDepsAfter, modules |-> [m \in Modules |-> Effective(m)]])>>)
+   ignoreFile |-> ignoreFile, breakingUse |-> breakingUse, second |-> second, deps |-> deps, build |-> build, pins |-> PinsAfter, declared |-> DeclaredDepsAfter, modules |-> [m \in Modules |-> Effective(m)]])>>)
 =============================================================================
